@@ -96,7 +96,7 @@ def r_case(c):
     ob = "Some (%s)" % r_obs(c["obs_b"], det) if c.get("obs_b") else "None"
     return ("{| tc_universe := %s;\n  tc_minconfs := %s; tc_syncoffs := %s; tc_details := %s;\n  tc_events := %s;\n"
             "  tc_events_b := %s; tc_obs_b := %s |}") % (
-        clist(["\n   " + r_tx(t) for t in i["universe"]]), clist([z(x) for x in i["minconfs"]]),
+        clist(["\n   " + r_tx(t) for t in (i["universe"] or [])]), clist([z(x) for x in i["minconfs"]]),
         clist([z(x) for x in i["syncoffs"]]), cbool(det), evs, evb, ob)
 
 
